@@ -149,8 +149,28 @@ def run(F, R, tier):
     if R.anchor("builtin_read", br):
         rname = H.last(rf["path"]) if rf else "read_from_file"
         brb = H.body_inl(F, br, keep=(rname,))
-        defaults = [H.render(H.strip(x.get("e"))) for x in H.walk(brb) if x.get("k") == "if" and re.search(r"args\)?\.len\(\) == 2", H.render(x["c"])) and "e" in x]
-        n_reads = len([c for c in H.walk(brb) if c.get("k") == "call" and H.last(c.get("callee") or "") == rname])
+        # the count each read is given, traced to where it is computed; its value when there is no second argument
+        lets_b = {x["pat"]["id"]: x["init"] for x in H.walk(brb) if x.get("k") == "let" and x.get("pat", {}).get("k") == "bind" and x.get("init") is not None}
+        reads_ = [c for c in H.walk(brb) if c.get("k") == "call" and H.last(c.get("callee") or "") == rname]
+        n_reads = len(reads_)
+
+        def absent_value(n_, d=0):
+            n_ = H.strip(n_)
+            if d < 4 and H.is_local(n_) and H.local_id(n_) in lets_b:
+                return absent_value(lets_b[H.local_id(n_)], d + 1)
+            if n_.get("k") == "if":
+                ct = H.render(n_["c"])
+                if re.search(r"args\)?\.len\(\) (== 2|> 1|>= 2)", ct) and n_.get("e") is not None:
+                    return H.render(H.strip(n_["e"]))
+                if re.search(r"args\)?\.len\(\) (== 1|< 2|!= 2|<= 1)", ct):
+                    return H.render(H.strip(n_["t"]))
+            if n_.get("k") == "match" and not H.is_try(n_) and re.search(r"args\)?\.get\(1\)", H.render(n_["scrut"])):
+                for a_ in n_["arms"]:
+                    if H.last((a_["pat"].get("res") or {}).get("path") or "") == "None":
+                        return H.render(H.strip(a_["body"]))
+            return None
+        defaults = [absent_value(c["args"][1]) for c in reads_ if len(c.get("args", [])) == 2]
+        defaults = [d for d in defaults if d is not None]
         R.ob("read-all-default", "read(f) without a count reads up to usize::MAX bytes (both handle kinds)", [re.sub(r"^v1::Ok\((.*)\)$", r"\1", d) for d in defaults] == ["MAX"] * n_reads and n_reads == 2,
              "%s for %d reads" % (defaults, n_reads), F.loc(br))
 
@@ -188,20 +208,40 @@ def run(F, R, tier):
         # the match on the mode string: the one whose arms are string literals (helpers of the file inlined, so that a shared
         # `writer_handle_or_error(open_result)` reads as part of each arm)
         bo_body = H.body_inl(F, bo, keep=("new_reader", "new_writer"))
-        ms = [m for m in H.walk(bo_body) if m.get("k") == "match" and not H.is_try(m) and
-              sum(1 for a in m["arms"] if a["pat"].get("k") == "plit" and a["pat"]["lit"].get("lk") == "str") >= 3]
+        # the local holding the mode: the one compared with string literals (by `==` or as the scrutinee of a match with
+        # string-literal arms) most often
+        votes = {}
+        for x in H.walk(bo_body):
+            if x.get("k") == "bin" and x.get("op") in ("==", "!="):
+                for a_, b_ in ((x["l"], x["r"]), (x["r"], x["l"])):
+                    if H.strip(b_).get("k") == "lit" and H.strip(b_).get("lk") == "str" and H.is_local(H.strip(a_)):
+                        votes[H.local_id(H.strip(a_))] = votes.get(H.local_id(H.strip(a_)), 0) + 1
+            if x.get("k") == "match" and not H.is_try(x) and H.is_local(H.strip(x["scrut"])):
+                n_ = sum(1 for a in x["arms"] for q in H.walk(a["pat"]) if q.get("k") == "plit" and q["lit"].get("lk") == "str")
+                if n_:
+                    votes[H.local_id(H.strip(x["scrut"]))] = votes.get(H.local_id(H.strip(x["scrut"])), 0) + n_
+        mode_id = max(votes, key=votes.get) if votes else None
         got = {}
-        if ms:
-            for a in ms[0]["arms"]:
-                if a["pat"].get("k") == "plit":
-                    calls = []
-                    for c in H.walk(a["body"]):
-                        if c.get("k") == "mcall" and (c.get("callee") or "").startswith("std::fs::OpenOptions::") and c["m"] != "open":
-                            calls.append("%s(%s)" % (c["m"], H.render(c["args"])))
-                        if c.get("k") == "call" and c.get("callee") == "std::fs::File::open":
-                            calls.append("File::open")
-                    kind = "reader" if "new_reader" in H.render(a["body"]) else ("writer" if "new_writer" in H.render(a["body"]) else "?")
-                    got[a["pat"]["lit"]["v"]] = (sorted(calls), kind)
+        OTHER = "\0 any other mode"
+
+        def built(body_):
+            calls = []
+            for c in H.walk(body_):
+                if c.get("k") == "mcall" and (c.get("callee") or "").startswith("std::fs::OpenOptions::") and c["m"] != "open":
+                    calls.append("%s(%s)" % (c["m"], H.render(c["args"])))
+                if c.get("k") == "call" and c.get("callee") == "std::fs::File::open":
+                    calls.append("File::open")
+            txt = H.render(body_)
+            return sorted(calls), ("reader" if "new_reader" in txt else ("writer" if "new_writer" in txt else "?"))
+        if mode_id is not None:
+            # the function as it runs for each mode string (a match on the mode, a chain of comparisons, a builder filled in
+            # under conditions: all read the same way once the mode is fixed)
+            for mode in list(WANT_MODES) + [OTHER]:
+                sb = H.specialise_value(bo_body, mode_id, mode)
+                # only what runs after the mode was determined counts
+                g_ = built(sb)
+                if mode != OTHER or g_[0] or g_[1] != "?":
+                    got[mode if mode != OTHER else "<other>"] = g_
         for mode, want in WANT_MODES.items():
             g = got.get(mode)
             R.ob("open-mode-table", "mode %s" % mode, g is not None and g[0] == sorted(want) and g[1] == ("reader" if mode == "r" else "writer"),
@@ -310,5 +350,7 @@ def run(F, R, tier):
         g = F.fn(BF + fn)
         if R.anchor(fn, g):
             txt = H.render(H.body_of(g))
-            ok = bool(reader_borrows(g)[0]) and "File::open" not in txt and "BufReader::new" not in txt
+            pl_ = reader_borrows(g)[1]
+            through = any(x.get("k") == "mcall" and x["m"] == "borrow_mut" and H.local_id(H.strip(x["recv"])) in pl_ for x in H.walk(H.body_of(g)))
+            ok = (bool(reader_borrows(g)[0]) or through) and "File::open" not in txt and "BufReader::new" not in txt
             R.ob("single-buffer-per-handle", "%s reads through the handle's BufReader" % fn, ok, "", F.loc(g), nontrivial=False)
